@@ -22,6 +22,7 @@ ID = "C07"
 LEVEL = "exploration"
 BUDGET = {"quick": 3000, "thorough": 300000}
 ENUM_BOUND = {"quick": 2500, "thorough": 120000}
+RUN_TIMEOUT = 30.0     # a case takes well under a millisecond; an executor silent for this long is stuck
 MAX_DEPTH = 6
 MAX_NODES = 40
 RULE = ("case = 1..4 program trees (Seq | Try(filter set of 1..3 kinds or catch-all) | Throw(kind) | Call | Mark | "
@@ -33,7 +34,10 @@ RULE = ("case = 1..4 program trees (Seq | Try(filter set of 1..3 kinds or catch-
         "around every tree. non-trivial = try nesting >= 2 and (an inner handler handled while an enclosing try body "
         "completed normally, or a handler threw, or an inner filter did not match). distinct = distinct case JSON. "
         "extra phase: all trees over {M, X0, X1, Seq2, Try(A|[0]|[1])} in size order up to a count bound, one per case.")
-ASSUMPTIONS = ["only well-nested programs: no return/break/goto out of a try body (documented restriction)",
+ASSUMPTIONS = ["filters are sets: `catch (e in X, X)` (the same object twice) is outside the statement's domain; in the "
+               "pinned tree it never terminates for a non-matching exception (foreach over a Tuple holding one pointer "
+               "twice, see C11) and is therefore never generated",
+               "only well-nested programs: no return/break/goto out of a try body (documented restriction)",
                "exception objects are distinct static type objects; filters compare with eq (by type name)",
                "depth is compared only between the two sides of one construct and around a whole tree, never inside "
                "a body or handler (where the pop happens is the implementation's choice)",
@@ -321,6 +325,12 @@ def _show(t):
 def _validate(case):
     if not isinstance(case, dict) or not isinstance(case.get("trees"), list) or not case["trees"]:
         raise HarnessBug("malformed case")
+    for t in case["trees"]:
+        for n in _walk(t):
+            fs = [n[1]] if n[0] == "T" else n[2] if n[0] == "L" else []
+            for f in fs:
+                if f != "A" and (len(set(f)) != len(f) or not all(isinstance(x, int) and 0 <= x < NK for x in f)):
+                    raise HarnessBug("filter is not a set of kinds: %r" % (f,))
 
 
 def encode(case):
@@ -359,7 +369,7 @@ def _walk(t):
 def run_case(ctx, case):
     enc = encode(case)
     ex = ctx.executor("ex_exc_plain" if case.get("build") == "plain" else "ex_exc")
-    obs = ex.run("\n".join(e[0] for e in enc))
+    obs = ex.run("\n".join(e[0] for e in enc), timeout=RUN_TIMEOUT)
     events = set()
     nontrivial = False
     for (_, num, r, trace, ev) in enc:
@@ -426,21 +436,31 @@ class _Gen:
         j = self.draw(st.integers(0, NK - 2))
         return j if j < k else j + 1
 
+    # filters are SETS of kinds (statement: "all filter sets"): entries are pairwise distinct
     def f_any(self):
         if self.draw(st.integers(0, 3)) == 0:
             return "A"
-        return self.draw(st.lists(_kind, min_size=1, max_size=3))
+        return self.draw(st.lists(_kind, min_size=1, max_size=3, unique=True))
 
     def f_match(self, k):
         if self.draw(st.integers(0, 2)) == 0:
             return "A"
-        f = self.draw(st.lists(_kind, max_size=2))
+        f = self.draw(st.lists(st.integers(0, NK - 2), max_size=2, unique=True))
+        f = [j if j < k else j + 1 for j in f]
         p = self.draw(st.integers(0, len(f)))
         return f[:p] + [k] + f[p:]
 
     def f_non(self, k):
-        n = self.draw(st.integers(1, 3))
-        return [self.other(k) for _ in range(n)]
+        f = self.draw(st.lists(st.integers(0, NK - 2), min_size=1, max_size=3, unique=True))
+        return [j if j < k else j + 1 for j in f]
+
+    def f_fixed(self, k, arity):
+        """exactly `arity` distinct kinds, containing k half of the time"""
+        f = self.draw(st.lists(st.integers(0, NK - 2), min_size=arity, max_size=arity, unique=True))
+        f = [j if j < k else j + 1 for j in f]
+        if arity and self.draw(st.integers(0, 1)) == 0:
+            f[self.draw(st.integers(0, arity - 1))] = k
+        return f
 
     def leaf(self):
         self.bud[0] -= 1
@@ -535,9 +555,7 @@ class _Gen:
         top = {1: 3, 2: 3, 3: 5, 4: 3}[n]      # deepest slot sits this far below the template root
         self.bud[0] -= over
         k = self.draw(_kind)
-        fl = []
-        for x in ar:
-            fl.append([k if self.draw(st.integers(0, 1)) == 0 else self.draw(_kind) for _ in range(x)])
+        fl = [self.f_fixed(k, x) for x in ar]
         slots = []
         for j in range(ns):
             r2 = res + (ns - 1 - j)
